@@ -6,7 +6,7 @@ from islamon.gen import grammars as GG
 from islamon.gen.formulas import FGen, uses
 
 SPEC = {
-    "quick": {"shards": 16, "budget_s": 55, "timeout_s": 260},
+    "quick": {"shards": 16, "budget_s": 50, "timeout_s": 260},
     "thorough": {"shards": 16, "budget_s": 900, "timeout_s": 1600},
     "rule": "case = (grammar, formula, open prefix P of a closed tree T obtained by cutting 1-3 inner nodes, ids kept): evaluate(P); "
             "when TRUE/FALSE, every closed completion (T itself, 4 random re-derivations of the cut nodes, larger 'adversarial' "
@@ -98,9 +98,10 @@ def judge(ctx, gname, g, m, f, T_l, P_l, rng):
                      for q in R2.subformulas(f)):
                 key = KF_SELFREC   # an open leaf of the quantified (recursive) type: occurrences nested below it are not anticipated
             else:
-                before = R2.STATS["empty_domain"]
-                R2.evaluate_ref(f, P)
-                if R2.STATS["empty_domain"] > before:
+                from islamon import patches
+                with patches.no_forall_drop():   # repaired twin: does the premature verdict vanish without the shortcut?
+                    vo2 = ev3(ctx, text, to_dt(P_l), g)
+                if vo2 == "U" or vo2 == vc:
                     key = KF_DROPPED
             ref = R2.evaluate_ref(f, to_dt(C_l))
             ctx.violation(key, f"open tree verdict {vo}, {kind} completion verdict {vc} (specification on the completion: {ref})",
@@ -111,17 +112,29 @@ def judge(ctx, gname, g, m, f, T_l, P_l, rng):
 
 
 def run(ctx):
-    from islamon.bridge import to_dt, from_dt, cut
+    from islamon.bridge import to_dt, from_dt, cut, cut_same_label
     rng = ctx.rng
     while ctx.running():
         gname = rng.choice(CORPUS) if rng.random() < 0.85 else "random"
         g = GG.FEATURE[gname] if gname != "random" else GG.random_grammar(rng, max_nts=4)
         m = G(g)
         gen = FGen(g, rng, m)
-        f = gen.formula(rng.randint(1, 3), {"start": "<start>"})
+        if rng.random() < 0.3:
+            # nested quantifiers without match expression: the inner one ranges over the variable of the outer one
+            outer = rng.choice(sorted(gen.reach["<start>"]))
+            inner_c = sorted(gen.reach[outer] | {outer})
+            inner = rng.choice(inner_c)
+            a, b = gen.fresh("q"), gen.fresh("q")
+            body = gen.atom({b: inner}) if rng.random() < 0.6 else gen.atom({a: outer, b: inner, "start": "<start>"})
+            if rng.random() < 0.3:
+                body = ("not", body)
+            f = (rng.choice(["forall", "exists"]), outer, a, "start", None, (rng.choice(["forall", "exists"]), inner, b, a, None, body))
+            ctx.count("nested_quantifier_templates")
+        else:
+            f = gen.formula(rng.randint(1, 3), {"start": "<start>"})
         for _ in range(3):
             T_l = from_dt(to_dt(m.random_tree(rng, budget=rng.choice([4, 8, 15, 25]), eps_style="empty")))
-            P_l = cut(T_l, rng, ncuts=rng.choice([1, 1, 2, 3]))
+            P_l = cut_same_label(T_l, rng) if rng.random() < 0.4 else cut(T_l, rng, ncuts=rng.choice([1, 1, 2, 3]))
             if P_l == T_l:
                 continue
             st, v = ctx.guarded(judge, ctx, gname, g, m, f, T_l, P_l, rng, timeout=150)
